@@ -225,8 +225,7 @@ def categorical_program(rng):
 
 
 def branchy_program(rng):
-    g = gen.C05Gen(rng)
-    prog = g.program()
+    prog = gen.gen_c05_program(rng)
     names = sorted({s[1] for s in prog["init"] if s[0] == "assign"})
     goals = []
     for _ in range(rng.choice([1, 2, 3])):
